@@ -1077,7 +1077,61 @@ fn c02(cases: &mut u64) -> Option<String> {
             }
         }
     }
+    // ops stored in a text diff ABOVE the size at which the builder maps items to integers (> 100 tokens per side):
+    // derived inputs of 101..260 tokens (duplicates, a moved block, inserted / removed / changed tokens)
+    for (name, o, n) in big_shapes(130).into_iter().chain(c02_large_shapes()) {
+        let os: Vec<String> = o.iter().map(|x| format!("t{}", x)).collect();
+        let ns: Vec<String> = n.iter().map(|x| format!("t{}", x)).collect();
+        let ov: Vec<&str> = os.iter().map(|x| x.as_str()).collect();
+        let nv: Vec<&str> = ns.iter().map(|x| x.as_str()).collect();
+        for &alg in &ALGS {
+            for &expired in &[false, true] {
+                *cases += 1;
+                let dl = if expired { Some(expired_deadline()) } else { None };
+                let ctx = format!("C02 alg={:?} large text diff '{}' ({} / {} tokens) deadline={}", alg, name, o.len(), n.len(), if expired { "expired" } else { "None" });
+                let r = guard(|| {
+                    let mut cfg = TextDiff::configure();
+                    cfg.algorithm(alg);
+                    if let Some(d) = dl {
+                        cfg.deadline(d);
+                    }
+                    let d = cfg.diff_slices(&ov, &nv);
+                    (d.ops().to_vec(), d.ratio())
+                });
+                match r {
+                    Err(p) => return Some(format!("{} TextDiffConfig::diff_slices: {}", ctx, p)),
+                    Ok((ops, ratio)) => {
+                        if let Err(e) = c02_one(&format!("{} TextDiffConfig::diff_slices(..).ops()", ctx), &ops, &o, 0..o.len(), &n, 0..n.len()) {
+                            return Some(e);
+                        }
+                        if !(ratio >= 0.0 && ratio <= 1.0) || (ratio == 1.0) != (o == n) {
+                            return Some(format!("{} ratio() = {}", ctx, ratio));
+                        }
+                    }
+                }
+            }
+        }
+    }
     None
+}
+
+fn c02_large_shapes() -> Vec<(&'static str, Vec<u32>, Vec<u32>)> {
+    let base: Vec<u32> = (0..150u32).map(|i| (i * 7) % 23).collect();
+    let mut edited = base.clone();
+    edited[10] = 900;
+    edited.insert(60, 901);
+    edited.remove(120);
+    let mut moved = base.clone();
+    let block: Vec<u32> = moved.drain(20..40).collect();
+    moved.splice(100..100, block);
+    vec![
+        ("identical", base.clone(), base.clone()),
+        ("one change, one insert, one removal", base.clone(), edited),
+        ("moved block", base.clone(), moved),
+        ("large old, small new", base.clone(), vec![1, 2, 3]),
+        ("small old, large new", vec![3, 2, 1], base.clone()),
+        ("large old, empty new", base.clone(), vec![]),
+    ]
 }
 
 fn c03(cases: &mut u64) -> Option<String> {
@@ -1956,7 +2010,7 @@ fn main() {
         "C07" => (c07(&mut cases), "alphabet {0,1,2}, len 0..=6, deadline expired at entry, raw algorithms + capture_diff_deadline; builder plumbing; work after expiry <= 8(N+M)+16 on 6 shapes of 40 and 300 items"),
         "C07clock" => (c07_clock(&mut cases), "virtual clock (cfg similar_verif): alphabet {0,1,2} len 0..=5 x every deadline check k, plus 6 shapes of 120 items x sampled k; valid script, finish once, never-expiring == no deadline, work after expiry <= 8(N+M)+16"),
         "C08" => (c08(&mut cases), "alphabet {0,1,2}, len 0..=4, 6 hook stacks x 2 hook kinds x every failing call index"),
-        "C02" => (c02(&mut cases), "alphabet {0,1,2}, len 0..=5, deadline none/expired, slices + sub-ranges + TextDiff chars"),
+        "C02" => (c02(&mut cases), "alphabet {0,1,2}, len 0..=5, deadline none/expired, slices + sub-ranges + TextDiff chars; 12 text diffs of 101..260 tokens through the integer-mapping path"),
         "C03" => (c03(&mut cases), "alphabet {0,1,2} len 0..=6 and alphabet {0,1} len 0..=8, Myers + LCS, raw + captured"),
         "C09" => (c09(&mut cases), "alphabet {0,1,2}, len 0..=6, deadline none/expired"),
         "C10" => (c10(&mut cases), "alphabet {0,1}, len 0..=3, all valid scripts x all carried indices x 3 adapter stacks"),
